@@ -459,7 +459,9 @@ func (e *Engine) sentinelAxioms(fc *FnCtx, g *ssa.Global, v Val) {
 	}
 	// generic sentinel: a foreign dynamic type, pairwise distinct from other generic sentinels, older than any
 	// object allocated by the function under verification, and (errors.New values) wrapping nothing
-	fc.axiom(app("bvuge", v.L[0], bvLit(foreignTagBase, 16)))
+	// (tags foreignTagBase .. foreignTagBase+15 stand for foreign types the repository never names; a named foreign
+	//  type such as *os.PathError gets its own id above that range, and no std sentinel used here has such a type)
+	fc.axiom(and(app("bvuge", v.L[0], bvLit(foreignTagBase, 16)), app("bvult", v.L[0], bvLit(foreignTagBase+16, 16))))
 	fc.axiom(app("bvult", v.L[1], "allocbase"))
 	fc.declareFunOnce("unw_tag", "("+SortTag+" (_ BitVec 64)) "+SortTag)
 	fc.declareFunOnce("unw_pay", "("+SortTag+" (_ BitVec 64)) (_ BitVec 64)")
